@@ -208,6 +208,7 @@ def oracle(c, case, opts, r, exact):
     (theta, ok, used-index) with `used` = index of the solve whose results were the seed)"""
     ts, d0, dmin = full_opts(opts)
     tol = 0.0 if exact else 1e-12
+    mtol = 0.0 if exact else 1e-9  # the comparison with delta_theta_min is strict ("below the minimum")
     if r["kind"] == "diverged":
         c.fail("homotopy loop did not end within %d solves" % FUEL, case)
         return
@@ -254,7 +255,7 @@ def oracle(c, case, opts, r, exact):
                 inc = th[k] - th[acc]
                 if abs(inc - inc_prev / 2) > tol:
                     bad.append("increment after the failure at solve %d is %r, not half of %r" % (k - 1, inc, inc_prev))
-                if inc_prev / 2 < dmin - 1e-9:
+                if inc_prev / 2 < dmin - mtol:
                     bad.append("run continued although the halved increment %r is below delta_theta_min" % (inc_prev / 2))
             if not th[k] > ts:
                 bad.append("solve %d at theta <= theta_start" % k)
@@ -266,7 +267,7 @@ def oracle(c, case, opts, r, exact):
         k = len(log) - 1
         if ok[k]:
             pass  # already reported above
-        elif not (k == 0 or (th[k] - th[acc]) / 2 < dmin + 1e-9):
+        elif not (k == 0 or (th[k] - th[acc]) / 2 < dmin + mtol):
             bad.append("failure reported although the halved increment %r is not below delta_theta_min" % ((th[k] - th[acc]) / 2))
     b = solve_bound(opts)
     if b is not None and len(log) > b + 1:
